@@ -3,7 +3,6 @@
      n1.n2 < 1/2        <->  angle > pi/3  (60 degrees)
      n1.n2 < 1 - 0.2    <->  angle > acos (4/5) = atan (3/4),  36.86 < angle in degrees < 36.88. *)
 From Coq Require Import Reals Lra QArith Qreals.
-From Interval Require Import Tactic.
 Require Import MV.C15.Model MV.C15.GenFacts.
 Local Open Scope R_scope.
 
@@ -40,9 +39,35 @@ Proof.
   rewrite sqrt_Rsqr by lra. lra.
 Qed.
 
-Theorem acos45_degrees : 36.86 < acos (4 / 5) * 180 / PI < 36.88.
+(* between 30 and 45 degrees (stdlib only; the sharper 36.86 < degrees < 36.88 is proved with coq-interval in
+   ExtraDegrees.v, which is kept out of the cone of Props.v) *)
+Theorem acos45_bounds : PI / 6 < acos (4 / 5) < PI / 4.
 Proof.
-  rewrite acos45_atan. split; interval with (i_prec 40).
+  pose proof PI_RGT_0 as P.
+  assert (S3 : 0 < sqrt 3) by (apply sqrt_lt_R0; lra).
+  assert (Q3 : sqrt 3 * sqrt 3 = 3) by (apply sqrt_sqrt; lra).
+  assert (S2 : 0 < sqrt 2) by (apply sqrt_lt_R0; lra).
+  assert (Q2 : sqrt 2 * sqrt 2 = 2) by (apply sqrt_sqrt; lra).
+  assert (H3 : 8 / 5 < sqrt 3).
+  { destruct (Rlt_le_dec (8 / 5) (sqrt 3)) as [H|H]; [exact H|]. exfalso.
+    assert (sqrt 3 * sqrt 3 <= 8 / 5 * (8 / 5)) by (apply Rmult_le_compat; lra). lra. }
+  assert (K3 : sqrt 3 <= 2).
+  { destruct (Rle_lt_dec (sqrt 3) 2) as [H|H]; [exact H|]. exfalso.
+    assert (2 * 2 <= sqrt 3 * sqrt 3) by (apply Rmult_le_compat; lra). lra. }
+  assert (H2 : 5 / 4 < sqrt 2).
+  { destruct (Rlt_le_dec (5 / 4) (sqrt 2)) as [H|H]; [exact H|]. exfalso.
+    assert (sqrt 2 * sqrt 2 <= 5 / 4 * (5 / 4)) by (apply Rmult_le_compat; lra). lra. }
+  assert (B3 : 4 / 5 < sqrt 3 / 2) by lra.
+  assert (B2 : 1 / sqrt 2 < 4 / 5).
+  { replace (4 / 5) with (/ (5 / 4)) by lra. unfold Rdiv at 1. rewrite Rmult_1_l.
+    apply Rinv_lt_contravar; [|exact H2]. apply Rmult_lt_0_compat; lra. }
+  assert (U3 : sqrt 3 / 2 <= 1) by lra.
+  assert (L2 : 0 < 1 / sqrt 2) by (apply Rdiv_lt_0_compat; lra).
+  split.
+  - replace (PI / 6) with (acos (cos (PI / 6))) by (apply acos_cos; lra).
+    rewrite cos_PI6. apply (proj1 (acos_lt_iff (4 / 5) (sqrt 3 / 2) ltac:(lra) ltac:(lra))). exact B3.
+  - replace (PI / 4) with (acos (cos (PI / 4))) by (apply acos_cos; lra).
+    rewrite cos_PI4. apply (proj1 (acos_lt_iff (1 / sqrt 2) (4 / 5) ltac:(lra) ltac:(lra))). exact B2.
 Qed.
 
 (* the generated comparisons are these strict inequalities (Q2R: the rational read as a real) *)
@@ -67,7 +92,9 @@ Lemma thresholds_thm :
   /\ (forall d, hard_test d false = true <-> Q2R d < 4 / 5)
   /\ (forall x, -1 <= x <= 1 -> (x < 1 / 2 <-> PI / 3 < acos x))
   /\ (forall x, -1 <= x <= 1 -> (x < 4 / 5 <-> acos (4 / 5) < acos x))
-  /\ acos (4 / 5) = atan (3 / 4).
+  /\ acos (4 / 5) = atan (3 / 4)
+  /\ PI / 6 < acos (4 / 5) < PI / 4.
 Proof.
-  exact (conj sharp_test_real (conj hard_test_real (conj dot_lt_half_iff_angle (conj dot_lt_45_iff_angle acos45_atan)))).
+  exact (conj sharp_test_real (conj hard_test_real (conj dot_lt_half_iff_angle (conj dot_lt_45_iff_angle
+          (conj acos45_atan acos45_bounds))))).
 Qed.
